@@ -181,3 +181,295 @@ func zzC01_other(which int) {
 	}
 	verifReach("other")
 }
+
+// ---------------------------------------------------------------------------------------------
+// a PublicKey / PrivateKey that is not a BLS key (for the not-a-BLS-key error paths)
+
+type fakeKey struct{}
+
+func (fakeKey) Algorithm() SigningAlgorithm { return ECDSAP256 }
+func (fakeKey) Size() int                   { return 0 }
+func (fakeKey) String() string              { return "fake" }
+func (fakeKey) Encode() []byte              { return nil }
+func (fakeKey) EncodeCompressed() []byte    { return nil }
+func (fakeKey) Equals(PublicKey) bool       { return false }
+func (fakeKey) Verify(Signature, []byte, hash.Hasher) (bool, error) {
+	return false, nil
+}
+
+type fakePrKey struct{}
+
+func (fakePrKey) Algorithm() SigningAlgorithm { return ECDSAP256 }
+func (fakePrKey) Size() int                   { return 0 }
+func (fakePrKey) String() string              { return "fake" }
+func (fakePrKey) Encode() []byte              { return nil }
+func (fakePrKey) Equals(PrivateKey) bool      { return false }
+func (fakePrKey) PublicKey() PublicKey        { return fakeKey{} }
+func (fakePrKey) Sign([]byte, hash.Hasher) (Signature, error) {
+	return nil, nil
+}
+
+func g1PointBytes(c *scalar, withTorsion bool) ([]byte, *pointE1) {
+	var p pointE1
+	generatorScalarMultG1(&p, c)
+	if withTorsion {
+		var T pointE1
+		unsafeMapToG1Complement(&T, []byte("verif-seed-for-a-point-outside-G1-0123456789abcdef0123456789abcdef0123456789abcdef0123456789abcdef0123456789"))
+		addE1(&p, &p, &T)
+	}
+	b := make([]byte, g1BytesLen)
+	writePointE1(b, &p)
+	return b, &p
+}
+
+// zzC17_relation: SPOCKVerify(pk1, c1*g1 [+T], pk2, c2*g1 [+T]) is true exactly when both proofs are in G1
+// and c1*sk2 = c2*sk1; the verdict is symmetric in the two pairs.
+func zzC17_relation(tor1, tor2 bool) {
+	var x1, x2, c1, c2 scalar
+	nondetFrStar(&x1)
+	nondetFrStar(&x2)
+	nondetFr(&c1)
+	nondetFr(&c2)
+	pk1 := newPrKeyBLSBLS12381(&x1).PublicKey()
+	pk2 := newPrKeyBLSBLS12381(&x2).PublicKey()
+	p1, _ := g1PointBytes(&c1, tor1)
+	p2, _ := g1PointBytes(&c2, tor2)
+	ok, err := SPOCKVerify(pk1, p1, pk2, p2)
+	verifAssert(err == nil, "no error for BLS keys")
+	var l, r scalar
+	multFr(&l, &c1, &x2)
+	multFr(&r, &c2, &x1)
+	rel := l.equals(&r)
+	want := bAnd(rel, bAnd(!tor1, !tor2))
+	verifAssert(ok == want, "SPOCKVerify holds exactly when both proofs are in G1 and e(p1,pk2) = e(p2,pk1)")
+	ok2, err := SPOCKVerify(pk2, p2, pk1, p1)
+	verifAssert(bAnd(err == nil, ok2 == ok), "the verdict is unchanged when the two pairs are swapped")
+	verifReach("spock relation")
+}
+
+// zzC17_honest: proofs made by SPOCKProve over the same data verify; over different data they do not;
+// attributed to another key they do not; identity keys, wrong lengths and non-BLS keys.
+func zzC17_honest(which int) {
+	var x1, x2, x3 scalar
+	nondetFrStar(&x1)
+	nondetFrStar(&x2)
+	nondetFrStar(&x3)
+	sk1, sk2 := newPrKeyBLSBLS12381(&x1), newPrKeyBLSBLS12381(&x2)
+	pk1, pk2 := sk1.PublicKey(), sk2.PublicKey()
+	data := nondetBytes(2)
+	h := testHasher("spock-tag")
+	p1, err := SPOCKProve(sk1, data, h)
+	verifAssert(err == nil, "SPOCKProve")
+	p2, _ := SPOCKProve(sk2, data, h)
+	s1, _ := sk1.Sign(data, h)
+	assertEqBytes(p1, s1, "SPOCKProve coincides with Sign")
+	switch which {
+	case 0:
+		ok, err := SPOCKVerify(pk1, p1, pk2, p2)
+		verifAssert(bAnd(ok, err == nil), "two proofs over the same data verify")
+		ok, err = SPOCKVerifyAgainstData(pk1, p1, data, h)
+		v, _ := pk1.Verify(p1, data, h)
+		verifAssert(bAnd(ok == v, err == nil), "SPOCKVerifyAgainstData coincides with Verify")
+		verifAssert(ok, "and accepts the proof")
+	case 1:
+		data2 := nondetBytes(2)
+		verifAssume(bOr(data2[0] != data[0], data2[1] != data[1]))
+		q2, _ := SPOCKProve(sk2, data2, h)
+		ok, err := SPOCKVerify(pk1, p1, pk2, q2)
+		verifAssert(bAnd(!ok, err == nil), "proofs over different data do not verify")
+	case 2:
+		verifAssume(!x3.equals(&x2))
+		pk3 := newPrKeyBLSBLS12381(&x3).PublicKey()
+		ok, err := SPOCKVerify(pk1, p1, pk3, p2)
+		verifAssert(bAnd(!ok, err == nil), "a proof attributed to another key does not verify")
+	case 3:
+		ok, err := SPOCKVerify(IdentityBLSPublicKey(), p1, pk2, p2)
+		verifAssert(bAnd(!ok, err == nil), "identity key 1 is rejected")
+		ok, err = SPOCKVerify(pk1, p1, IdentityBLSPublicKey(), p2)
+		verifAssert(bAnd(!ok, err == nil), "identity key 2 is rejected")
+		ok, err = SPOCKVerify(IdentityBLSPublicKey(), g1Serialization, IdentityBLSPublicKey(), g1Serialization)
+		verifAssert(bAnd(!ok, err == nil), "identity keys with identity proofs are rejected")
+		ok, err = SPOCKVerify(pk1, g1Serialization, pk2, g1Serialization)
+		verifAssert(bAnd(ok, err == nil), "two identity proofs satisfy the pairing relation (consistent with the exactly-when of the property)")
+	case 4:
+		ok, err := SPOCKVerify(pk1, p1[:47], pk2, p2)
+		verifAssert(bAnd(!ok, err == nil), "short proof 1 is rejected")
+		ok, err = SPOCKVerify(pk1, p1, pk2, append(p2, 0))
+		verifAssert(bAnd(!ok, err == nil), "long proof 2 is rejected")
+		ok, err = SPOCKVerify(pk1, []byte{}, pk2, p2)
+		verifAssert(bAnd(!ok, err == nil), "empty proof is rejected")
+	case 5:
+		ok, err := SPOCKVerify(fakeKey{}, p1, pk2, p2)
+		verifAssert(bAnd(!ok, IsNotBLSKeyError(err)), "non-BLS key 1")
+		ok, err = SPOCKVerify(pk1, p1, fakeKey{}, p2)
+		verifAssert(bAnd(!ok, IsNotBLSKeyError(err)), "non-BLS key 2")
+		_, err = SPOCKProve(fakePrKey{}, data, h)
+		verifAssert(IsNotBLSKeyError(err), "non-BLS private key")
+		ok, err = SPOCKVerifyAgainstData(fakeKey{}, p1, data, h)
+		verifAssert(bAnd(!ok, IsNotBLSKeyError(err)), "non-BLS key against data")
+	case 6:
+		raw1 := nondetBytes(48)
+		raw2 := nondetBytes(48)
+		ok, err := SPOCKVerify(pk1, raw1, pk2, raw2)
+		verifAssert(err == nil, "no error on arbitrary strings")
+		if ok {
+			a, b := decodeSigPoint(raw1), decodeSigPoint(raw2)
+			verifAssert(bAnd(a != nil, b != nil), "accepted proofs decode")
+			verifAssert(bAnd(checkMembershipG1(a), checkMembershipG1(b)), "accepted proofs are in G1")
+			verifReach("spock raw accepted")
+		}
+	}
+	verifReach("spock honest")
+}
+
+// ---------------------------------------------------------------------------------------------
+// C16: proofs of possession
+
+func zzC16_pop(which int, tagLen int) {
+	var x, y scalar
+	nondetFrStar(&x)
+	nondetFrStar(&y)
+	sk := newPrKeyBLSBLS12381(&x)
+	pk := sk.PublicKey()
+	pop, err := BLSGeneratePOP(sk)
+	verifAssert(err == nil, "BLSGeneratePOP")
+	switch which {
+	case 0:
+		ok, err := BLSVerifyPOP(pk, pop)
+		verifAssert(bAnd(ok, err == nil), "the PoP verifies under its own key")
+		s, _ := sk.Sign(pk.Encode(), popKMAC)
+		assertEqBytes(pop, s, "the PoP is the signature of the encoded public key under the PoP ciphersuite")
+	case 1:
+		verifAssume(!x.equals(&y))
+		pk2 := newPrKeyBLSBLS12381(&y).PublicKey()
+		ok, err := BLSVerifyPOP(pk2, pop)
+		verifAssert(bAnd(!ok, err == nil), "the PoP does not verify under another key")
+	case 2:
+		ok, err := BLSVerifyPOP(IdentityBLSPublicKey(), pop)
+		verifAssert(bAnd(!ok, err == nil), "never under the identity key")
+		ok, err = BLSVerifyPOP(IdentityBLSPublicKey(), g1Serialization)
+		verifAssert(bAnd(!ok, err == nil), "identity PoP under the identity key")
+	case 3:
+		// every application tag of length tagLen (symbolic contents): a signature of the public key bytes
+		// under that tag is not a PoP, and the PoP is not a signature under that tag
+		tag := string(nondetBytes(tagLen))
+		h := NewExpandMsgXOFKMAC128(tag)
+		s, _ := sk.Sign(pk.Encode(), h)
+		ok, err := BLSVerifyPOP(pk, s)
+		verifAssert(bAnd(!ok, err == nil), "a signature of the public key bytes under an application tag is not a PoP")
+		ok, err = pk.Verify(pop, pk.Encode(), h)
+		verifAssert(bAnd(!ok, err == nil), "a PoP is not a signature under an application tag")
+	case 4:
+		_, err := BLSGeneratePOP(fakePrKey{})
+		verifAssert(IsNotBLSKeyError(err), "non-BLS private key")
+		ok, err := BLSVerifyPOP(fakeKey{}, pop)
+		verifAssert(bAnd(!ok, IsNotBLSKeyError(err)), "non-BLS public key")
+	case 5:
+		// candidate PoP strings: c*g1: accepted only if it is the PoP group element
+		var c scalar
+		nondetFr(&c)
+		cb, cp := g1PointBytes(&c, false)
+		ok, err := BLSVerifyPOP(pk, cb)
+		verifAssert(err == nil, "no error")
+		verifAssert(ok == cp.equals(decodeSigPoint(pop)), "BLSVerifyPOP accepts exactly the PoP group element")
+	}
+	verifReach("pop")
+}
+
+// ---------------------------------------------------------------------------------------------
+// C04: aggregation homomorphisms
+
+func zzC04_aggregate(n int, pattern int) {
+	// pattern bit i set: key i equals key 0 (duplicates); pattern == -1: keys sum to zero (last = -(sum of others))
+	xs := make([]scalar, n)
+	sks := make([]PrivateKey, n)
+	pks := make([]PublicKey, n)
+	for i := 0; i < n; i++ {
+		nondetFrStar(&xs[i])
+		if pattern > 0 && i > 0 && (pattern>>uint(i))&1 == 1 {
+			xs[i] = xs[0]
+		}
+		sks[i] = newPrKeyBLSBLS12381(&xs[i])
+		pks[i] = sks[i].PublicKey()
+	}
+	msg := nondetBytes(2)
+	h := testHasher("agg-tag")
+	sigs := make([]Signature, n)
+	for i := 0; i < n; i++ {
+		sigs[i], _ = sks[i].Sign(msg, h)
+	}
+	aggSk, err := AggregateBLSPrivateKeys(sks)
+	verifAssert(err == nil, "AggregateBLSPrivateKeys")
+	aggPk, err := AggregateBLSPublicKeys(pks)
+	verifAssert(err == nil, "AggregateBLSPublicKeys")
+	aggSig, err := AggregateBLSSignatures(sigs)
+	verifAssert(err == nil, "AggregateBLSSignatures")
+	verifAssert(aggSk.PublicKey().Equals(aggPk), "public key of the aggregated private key = aggregate of the public keys")
+	assertEqBytes(aggSk.PublicKey().Encode(), aggPk.Encode(), "same encoding")
+	s2, _ := aggSk.Sign(msg, h)
+	assertEqBytes(aggSig, s2, "aggregate of the signatures = signature by the aggregated private key")
+	// order independence (reverse) and nesting (aggregate of aggregates)
+	rs := make([]Signature, n)
+	rp := make([]PublicKey, n)
+	for i := 0; i < n; i++ {
+		rs[i], rp[i] = sigs[n-1-i], pks[n-1-i]
+	}
+	a2, _ := AggregateBLSSignatures(rs)
+	assertEqBytes(a2, aggSig, "signature aggregation is order independent")
+	p2, _ := AggregateBLSPublicKeys(rp)
+	verifAssert(p2.Equals(aggPk), "key aggregation is order independent")
+	if n >= 2 {
+		left, _ := AggregateBLSSignatures(sigs[:1])
+		right, _ := AggregateBLSSignatures(sigs[1:])
+		nested, _ := AggregateBLSSignatures([]Signature{left, right})
+		assertEqBytes(nested, aggSig, "nested aggregation gives the same signature")
+		lp, _ := AggregateBLSPublicKeys(pks[:1])
+		rpk, _ := AggregateBLSPublicKeys(pks[1:])
+		np, _ := AggregateBLSPublicKeys([]PublicKey{lp, rpk})
+		verifAssert(np.Equals(aggPk), "nested key aggregation gives the same key")
+		// removal
+		rem, err := RemoveBLSPublicKeys(aggPk, pks[1:])
+		verifAssert(err == nil, "RemoveBLSPublicKeys")
+		verifAssert(rem.Equals(pks[0]), "Remove(Aggregate(A+B), B) = Aggregate(A)")
+		all, _ := RemoveBLSPublicKeys(aggPk, pks)
+		verifAssert(all.Equals(IdentityBLSPublicKey()), "removing all keys gives the identity key")
+		verifAssert(all.(*pubKeyBLSBLS12381).isIdentity, "identity flag is recomputed")
+	}
+	ok, _ := aggPk.Verify(aggSig, msg, h)
+	verifAssert(ok == !aggPk.(*pubKeyBLSBLS12381).isIdentity, "the aggregate verifies unless the aggregated key is the identity")
+	verifAssert(IsBLSSignatureIdentity(aggSig) == aggSk.(*prKeyBLSBLS12381).scalar.isZero(), "identity signature iff the keys sum to zero")
+	verifReach("aggregate")
+}
+
+func zzC04_errors() {
+	_, err := AggregateBLSSignatures(nil)
+	verifAssert(IsBLSAggregateEmptyListError(err), "empty signature list")
+	_, err = AggregateBLSPrivateKeys(nil)
+	verifAssert(IsBLSAggregateEmptyListError(err), "empty private key list")
+	_, err = AggregateBLSPublicKeys([]PublicKey{})
+	verifAssert(IsBLSAggregateEmptyListError(err), "empty public key list")
+	_, err = AggregateBLSPrivateKeys([]PrivateKey{fakePrKey{}})
+	verifAssert(IsNotBLSKeyError(err), "non-BLS private key")
+	_, err = AggregateBLSPublicKeys([]PublicKey{fakeKey{}})
+	verifAssert(IsNotBLSKeyError(err), "non-BLS public key")
+	_, err = RemoveBLSPublicKeys(fakeKey{}, nil)
+	verifAssert(IsNotBLSKeyError(err), "non-BLS aggregated key")
+	_, err = RemoveBLSPublicKeys(IdentityBLSPublicKey(), []PublicKey{fakeKey{}})
+	verifAssert(IsNotBLSKeyError(err), "non-BLS key to remove")
+	same, err := RemoveBLSPublicKeys(IdentityBLSPublicKey(), nil)
+	verifAssert(bAnd(err == nil, same.Equals(IdentityBLSPublicKey())), "removing nothing")
+	_, err = AggregateBLSSignatures([]Signature{make([]byte, 47)})
+	verifAssert(IsInvalidSignatureError(err), "short signature")
+	_, err = AggregateBLSSignatures([]Signature{BLSInvalidSignature()})
+	verifAssert(IsInvalidSignatureError(err), "malformed signature")
+	raw := nondetBytes(48)
+	agg, err := AggregateBLSSignatures([]Signature{raw})
+	if err != nil {
+		verifAssert(IsInvalidSignatureError(err), "undecodable signature gives the invalid-signature error")
+	} else {
+		assertEqBytes(agg, raw, "the aggregate of one decodable signature is itself (canonical)")
+	}
+	verifAssert(IsBLSSignatureIdentity(g1Serialization), "identity signature constant")
+	verifAssert(IdentityBLSPublicKey().(*pubKeyBLSBLS12381).isIdentity, "identity key constant")
+	verifReach("aggregate errors")
+}
